@@ -3,6 +3,7 @@ use std::convert::{TryFrom, TryInto};
 use regex::Regex;
 use smol_str::SmolStr;
 
+use crate::fatal;
 use crate::features::side_by_side::ansifill::ODD_PAD_CHAR;
 
 #[derive(Debug, PartialEq, Eq)]
@@ -192,11 +193,11 @@ pub fn parse_line_number_format<'a>(
             width: captures.get(4).map(|m| {
                 m.as_str()
                     .parse()
-                    .unwrap_or_else(|_| panic!("Invalid width in format string: {}", format_string))
+                    .unwrap_or_else(|_| fatal(format!("Invalid width in format string: {format_string}")))
             }),
             precision: captures.get(5).map(|m| {
                 m.as_str().parse().unwrap_or_else(|_| {
-                    panic!("Invalid precision in format string: {}", format_string)
+                    fatal(format!("Invalid precision in format string: {format_string}"))
                 })
             }),
             fmt_type: captures
